@@ -26,6 +26,14 @@ def main():
         pr = F.prove(pid, tier)
     except Exception:
         traceback.print_exc(); return 2
+    # watchdog: a check that does not finish means some call into the implementation does not return
+    import signal
+    class _Watchdog(BaseException): pass
+    def _bark(signum, frame): raise _Watchdog()
+    limit = int(os.environ.get("VERIF_CHECK_TIMEOUT", "900" if tier == "quick" else "14400"))
+    if hasattr(signal, "SIGALRM"):
+        signal.signal(signal.SIGALRM, _bark); signal.alarm(limit)
+        F.WATCHDOG["deadline"] = __import__("time").time() + limit
     try:
         if pr["driver_ok"]:
             fn(run)
@@ -36,6 +44,11 @@ def main():
     except (OSError, MemoryError, KeyboardInterrupt, NameError, ImportError, SyntaxError):
         traceback.print_exc()
         print(f"[{pid}] infrastructure failure"); return 2
+    except F.Abort:
+        pass                                    # the violations that settled the verdict are already recorded
+    except _Watchdog:
+        run.violation(f"the check did not finish within {limit} s: a call into the implementation does not return (last inputs in the replay)",
+                      {"last_cases": run.samples[-2:], "evaluations": run.evaluations})
     except Exception as ex:
         # The check itself never raises on the unchanged tree; when it does, the implementation handed it something
         # (a value of another shape, an exception from an attribute access, ...) that no run on the unchanged tree produces.
@@ -44,6 +57,7 @@ def main():
         tb = traceback.format_exc()
         run.violation(f"check aborted by {type(ex).__name__}: {str(ex)[:200]} - the implementation produced something the check cannot process",
                       {"traceback": tb[-3000:], "last_cases": run.samples[-2:]})
+    if hasattr(signal, "SIGALRM"): signal.alarm(0)
     return F.finish(run, pr)
 
 if __name__ == "__main__":
